@@ -558,6 +558,46 @@ pub fn run_program(prog: Program, opts: &Opts, plan: noise::Plan) -> RunResult {
                     Wait::TimedOut => outcome = Outcome::Inconclusive("watchdog waiting for the panicking job".into()),
                 }
             }
+            if !ph.release_first.is_empty() && outcome == Outcome::Completed {
+                if let Some(lower) = ph.lower_while_busy {
+                    // C10 with a reconfiguration in progress: the temporaries go away (their threads, the first ones of the list, become
+                    // idle), the maximum is lowered to a value that still exceeds the number of blocked bodies, and the despawn - which has
+                    // to wait for the retiring threads that are inside blocked bodies - is started; operations on a free object must run
+                    for h in &ph.release_first { ctx.holds[*h].open(); }
+                    let temps: Vec<OpId> = (0..ctx.prog.ops.len()).filter(|i| ctx.prog.ops[*i].body.iter().any(|s| matches!(s, Step::Hold(h) if ph.release_first.contains(h)))).collect();
+                    let _ = wait_until(native, watchdog, || temps.iter().all(|o| ctx.recs[*o].end.load(ORD) != 0));
+                    let done = Arc::new(AtomicBool::new(false));
+                    let d2 = Arc::clone(&done);
+                    let main = thread::current();
+                    POOL_MAX_NOW.store(cur_max, Ordering::SeqCst);
+                    spawn_task("vh-z".into(), Box::new(move || {
+                        let _ = catch_unwind(AssertUnwindSafe(|| configure_pool(lower, PoolMode::Warm)));
+                        d2.store(true, Ordering::SeqCst);
+                        main.unpark();
+                    }));
+                    if native { thread::sleep(Duration::from_micros(500)); } else { for _ in 0..300 { thread::yield_now(); } }
+                    started += 1;
+                    spawn_caller(&ctx, 20, ph.after_deaths.clone(), None, None);
+                    let ids: Vec<OpId> = ph.after_deaths.iter().filter_map(|a| if let TAct::Op(o) = a { Some(*o) } else { None }).collect();
+                    let blocked = ph.occupy.len() - ph.release_first.len();
+                    match wait_until(native, watchdog, || ids.iter().all(|o| ctx.recs[*o].end.load(ORD) != 0)) {
+                        Wait::Done => {}
+                        Wait::Quiescent(s) => { outcome = Outcome::Stuck; stuck_snap = Some(s);
+                            ctx.sink.report("C10", "independent_object_made_no_progress_while_others_blocked", format!("c10_stall:pool{}:held{}:{}", lower, blocked, ph.name),
+                                format!("phase '{}': {} bodies are blocked, the maximum was lowered to {} and despawn_threads_if_overloaded is waiting for the retiring threads; operations on a free object did not run although idle pool threads exist: {}", ph.name, blocked, lower, incomplete_list(&ctx, true))); }   // (the scheduler's Debug output takes the thread-list lock: not while a despawn may be holding it)
+                        Wait::TimedOut => outcome = Outcome::Inconclusive("watchdog while probing during a despawn".into()),
+                    }
+                    for h in &ph.occupy { ctx.holds[*h].open(); }
+                    if outcome == Outcome::Completed {
+                        match wait_until(native, watchdog, || done.load(Ordering::SeqCst)) {
+                            Wait::Done => { POOL_MAX_NOW.store(lower, Ordering::SeqCst); cur_max = lower; }
+                            Wait::Quiescent(s) => { outcome = Outcome::Stuck; stuck_snap = Some(s);
+                                ctx.sink.report("C17", "pool_reconfiguration_never_returned", "despawn_hang_while_busy".into(), format!("lowering the maximum to {} and despawn_threads_if_overloaded did not return; all threads quiet", lower)); }
+                            Wait::TimedOut => outcome = Outcome::Inconclusive("watchdog during despawn while busy".into()),
+                        }
+                    }
+                }
+            } else
             if !ph.after_deaths.is_empty() && outcome == Outcome::Completed {
                 // more work arrives while the surviving pool threads are still inside their blocked bodies: the dead threads have to be
                 // replaced (up to the maximum) for it to run, and the scheduling calls themselves have to return
@@ -574,7 +614,7 @@ pub fn run_program(prog: Program, opts: &Opts, plan: noise::Plan) -> RunResult {
                     Wait::TimedOut => outcome = Outcome::Inconclusive("watchdog waiting for the work scheduled after the deaths".into()),
                 }
             }
-            if let (Some(lower), true) = (ph.lower_while_busy, outcome == Outcome::Completed) {
+            if let (Some(lower), true, true) = (ph.lower_while_busy, outcome == Outcome::Completed, ph.release_first.is_empty()) {
                 // lower the maximum and despawn while the pool threads are inside blocked bodies; then let the bodies go on
                 let done = Arc::new(AtomicBool::new(false));
                 let d2 = Arc::clone(&done);
@@ -862,7 +902,7 @@ fn free_callers_done(ctx: &RunCtx) -> bool {
     // caller threads that only work on free objects must finish while the holds are closed; threads that touch held objects may be blocked
     let mut needed = 0; let mut total_free = 0;
     for acts in ctx.prog.threads.iter() {
-        let touches_held = acts.iter().any(|a| match a { TAct::Op(o) | TAct::Join(o) => ctx.prog.held_objs.contains(&ctx.prog.ops[*o].obj) || ctx.prog.ops[*o].body.iter().any(|s| matches!(s, Step::Hold(_))), TAct::WaitStart(_) => true, _ => false });
+        let touches_held = acts.iter().any(|a| match a { TAct::Op(o) | TAct::Join(o) => ctx.prog.held_objs.contains(&ctx.prog.ops[*o].obj) || ctx.prog.ops[*o].body.iter().any(|s| matches!(s, Step::Hold(_))), TAct::WaitStart(_) | TAct::WaitRet(_) => true, _ => false });
         if !touches_held { total_free += 1; }
     }
     needed += total_free;
